@@ -168,17 +168,29 @@ type headerViews struct {
 	animW, animH, animFrames, animLoop                         int
 }
 
+// queryOrder counts queryAll calls; queryStep holds the strides (all coprime to 5) that permute the query order.
+var queryOrder int
+var queryStep = []int{1, 2, 3, 4}
+
 func queryAll(data []byte) (v headerViews, panicked any) {
 	defer func() {
 		if r := recover(); r != nil {
 			panicked = r
 		}
 	}()
-	v.img, v.decErr = webp.Decode(bytes.NewReader(data))
-	v.cfg, v.cfgErr = webp.DecodeConfig(bytes.NewReader(data))
-	v.feat, v.featErr = webp.GetFeatures(bytes.NewReader(data))
-	_, v.ifmt, v.idecErr = image.Decode(bytes.NewReader(data))
-	v.icfg, v.icfmt, v.icfgErr = image.DecodeConfig(bytes.NewReader(data))
+	// the five package-level queries run in a rotating order, so that each of them is at some point the first call on
+	// a new file right after each of the others was the last call on the previous (still / animated / extended) file
+	qs := []func(){
+		func() { v.img, v.decErr = webp.Decode(bytes.NewReader(data)) },
+		func() { v.cfg, v.cfgErr = webp.DecodeConfig(bytes.NewReader(data)) },
+		func() { v.feat, v.featErr = webp.GetFeatures(bytes.NewReader(data)) },
+		func() { _, v.ifmt, v.idecErr = image.Decode(bytes.NewReader(data)) },
+		func() { v.icfg, v.icfmt, v.icfgErr = image.DecodeConfig(bytes.NewReader(data)) },
+	}
+	queryOrder++
+	for k := range qs {
+		qs[(k*queryStep[queryOrder%len(queryStep)]+queryOrder)%5]()
+	}
 	d, err := mux.NewDemuxer(data)
 	v.dmxErr = err
 	if err == nil {
